@@ -270,6 +270,7 @@ def run(chk):
     # ---- connhdr ---------------------------------------------------------------------------------------------------------------------
     connhdr(chk, repo)
     hunt3_rules(chk, repo)
+    hunt4_rules(chk, repo)
     # ---- eof -----------------------------------------------------------------------------------------------------------------------------
     wb = repo.func(REQ, "ClientRequest._write_bytes")
     t = [t for t in ast.walk(wb.node) if isinstance(t, ast.Try) and t.orelse]
@@ -375,6 +376,50 @@ def rxselect(chk, repo, fd, codes, meths):
         chk.ok("C02.rxselect", init, "HttpPayloadParser: no-body > chunked > length > until-EOF, in this order")
     else:
         chk.violation("C02.rxselect", init, "if not response_with_body / elif chunked / elif length is not None", str(order), "the body parser's mode selection order changed (chunked must win over length)")
+
+
+def _codec(c):
+    """(encoding, errors) of a str.encode / bytes.decode call with constant arguments"""
+    enc = c.args[0].value if c.args and isinstance(c.args[0], ast.Constant) else next((k.value.value for k in c.keywords if k.arg == "encoding" and isinstance(k.value, ast.Constant)), "utf-8")
+    err = c.args[1].value if len(c.args) > 1 and isinstance(c.args[1], ast.Constant) else next((k.value.value for k in c.keywords if k.arg == "errors" and isinstance(k.value, ast.Constant)), "strict")
+    return (str(enc).lower().replace("_", "-"), err)
+
+
+def hunt4_rules(chk, repo):
+    """Rules written after the fourth defect hunt (F270, F271)."""
+    # ---- C02.hdrcodec: a header value that was received can be sent again: the serialisers encode with the codec the parsers decode with -------------
+    ph = repo.func(HP, "HeadersParser.parse_headers") if "HeadersParser.parse_headers" in repo.module(HP).functions else None
+    decs = [c for c in prog.calls_in(ph.node) if isinstance(c.func, ast.Attribute) and c.func.attr == "decode" and norm.raw(c.func.value) == "bvalue"] if ph is not None else []
+    if not decs:
+        chk.analysis_error("C02.hdrcodec: the decoding of field values in HeadersParser.parse_headers was not found")
+    else:
+        want = _codec(decs[0])
+        sites = [("aiohttp/http_writer.py", "_py_serialize_headers", "the message head"), ("aiohttp/payload.py", "Payload._binary_headers", "the headers of a multipart part")]
+        for rel, q, what in sites:
+            fn = repo.func(rel, q)
+            encs = [c for c, _b in K.exprs(fn, "$S.encode(...)") if isinstance(K.stmt_of(c), (ast.Return, ast.Assign))]
+            for c in encs:
+                got = _codec(c)
+                if got == want:
+                    chk.ok("C02.hdrcodec", c, f"{q}: {what} is encoded with {got[0]}/{got[1]}, the inverse of the parsers' decoding")
+                else:
+                    chk.violation("C02.hdrcodec", c, K.short(c, 60), f".encode({want[0]!r}, {want[1]!r})",
+                                  f"{q} encodes {what} with {got[0]}/{got[1]} while the parsers decode field values with {want[0]}/{want[1]}: a received value with an obs-text byte (`filename=\"caf\\xe9.txt\"`, arriving as a lone surrogate) cannot be sent again - a handler that copies it into a response header produces a 500, forwarding it with session.get(headers=...) raises a bare UnicodeEncodeError")
+    # ---- C02.bodycharset: a str request body is encoded in the charset the request announces -----------------------------------------------------------------
+    ub = repo.func(REQ, "ClientRequest._update_body_from_data")
+    gets = [c for c in prog.calls_in(ub.node) if norm.raw(c.func).endswith("PAYLOAD_REGISTRY.get")]
+    if not gets:
+        chk.analysis_error("C02.bodycharset: PAYLOAD_REGISTRY.get(...) not found in ClientRequest._update_body_from_data")
+    for c in gets:
+        direct = any(k.arg == "content_type" for k in c.keywords)
+        splat = [k.value for k in c.keywords if k.arg is None]
+        via = any(isinstance(x, ast.Constant) and x.value == "content_type" for sv in splat for d_, v in norm.fn_defs(ub.node).defs.get(norm.raw(sv), []) for x in ast.walk(d_)) or any(
+            isinstance(a, ast.Assign) and isinstance(a.targets[0], ast.Subscript) and norm.raw(a.targets[0].value) in {norm.raw(sv) for sv in splat} and isinstance(a.targets[0].slice, ast.Constant) and a.targets[0].slice.value == "content_type" for a in ast.walk(ub.node))
+        if direct or via:
+            chk.ok("C02.bodycharset", c, "the payload built for the body gets the request's own Content-Type: a str is encoded with the charset it names")
+        else:
+            chk.violation("C02.bodycharset", c, K.short(c, 70), "content_type=self.headers[hdrs.CONTENT_TYPE]",
+                          "`data='café'` with `Content-Type: text/plain; charset=latin-1` is sent as UTF-8 bytes under a header that says latin-1 (the documentation says the charset of Content-Type is used): the server decodes mojibake, or answers 415 for utf-16")
 
 
 def hunt3_rules(chk, repo):
